@@ -37,7 +37,12 @@ RIGID = [
     (['alt', 'class', [['lit', 'ab', True], ['lit', 'cd', True]]], ['ab', 'cd']),
     (['cap', 'class', ['alt', 'method', [['lit', 'x', False], ['lit', 'y', True]]], None], ['x', 'y']),
 ]
-BAD = {'float': 2.0, 'str': '2', 'bool': True, 'none': None, 'neg': -1, 'list': [1]}
+import fractions  # noqa: E402
+BAD = {'float': 2.0, 'str': '2', 'bool': True, 'none': None, 'neg': -1, 'list': [1],
+       # further non-int kinds: special floats (what an internal "no upper bound" might be spelled as), non-integral and huge floats,
+       # other numeric types, bytes, tuples
+       'float_frac': 1.5, 'inf': float('inf'), 'ninf': float('-inf'), 'nan': float('nan'), 'float_big': 1e308, 'false': False, 'complex': 2j,
+       'fraction': fractions.Fraction(2, 1), 'bytes': b'2', 'tuple': (1, 2), 'str_empty': '', 'neg_big': -(10 ** 12)}
 
 
 def decode(v):
